@@ -631,6 +631,9 @@ func parseArrayElements(raw []byte, off, count, elemOid, elemLen, elemAlign int,
 			}
 			if hdr := raw[off]; hdr&1 == 1 {
 				n := int(hdr >> 1)
+				if n < 1 || off+n > len(raw) {
+					break // no room for the 1-byte header, or the element runs past the value
+				}
 				elems = append(elems, DecodeType(raw[off+1:off+n], elemOid))
 				off += n
 			} else {
@@ -638,6 +641,9 @@ func parseArrayElements(raw []byte, off, count, elemOid, elemLen, elemAlign int,
 					break
 				}
 				n := int(u32(raw, off) >> 2)
+				if n < 4 || off+n > len(raw) {
+					break // no room for the 4-byte header, or the element runs past the value
+				}
 				elems = append(elems, DecodeType(raw[off+4:off+n], elemOid))
 				off += n
 			}
